@@ -9,8 +9,17 @@ Op lines (one per case; harness/ipc/ipc_crash.c and the Lean driver `qb_ipclife`
   gdeath T SCRIPT J          the server SIGKILLs the victim immediately before the server's own J-th call
   hs     T MODE N            a raw client sends the first N bytes of a valid handshake record and dies
   sdry   T PRE API TMO       server-death direction, no death: prints the forked server's call list
-  sdeath T PRE API TMO S     the forked server dies immediately before its S-th call while API(TMO) runs
-                             (S = 0: SIGKILLed and reaped before the call)
+  sdeath T PRE API TMO S [D] the forked server dies immediately before its S-th call while API(TMO) runs
+                             (S = 0: SIGKILLed and reaped before the call); then the later calls and
+                             qb_ipcc_disconnect (with D: no later calls, the next call is qb_ipcc_disconnect)
+  sidle  T PRE REAP CALLS    the forked server is SIGKILLed while the client is idle (in no library call),
+                             after the preparation PRE (E events queued, S response queued, Q round trip,
+                             N request without response, H server stopped from here on: what follows stays
+                             queued on the server's side).  REAP = 0 reaped before the client's next call |
+                             1..4 a zombie, reaped during the REAP-th 10 ms pause of qb_ipcc_disconnect |
+                             n a zombie until qb_ipcc_disconnect has returned.  CALLS = the client's calls
+                             after the death: D disconnect (last), I is_connected, S send, Q sendv_recv(-1),
+                             V event_recv(0), W event_recv(-1), R recv(0)
 
 T = shm | sock.  SCRIPT = API letters: C connect, D disconnect, Q sendv_recv(echo), E sendv_recv(3 events),
 S send(echo), N send(request without response), R recv, V event_recv.
@@ -37,6 +46,28 @@ SDEATH = [
     ("N", "recv", 0), ("N", "recv", 900), ("S", "recv", 900),
     ("Q", "sendv_recv", -1), ("E", "sendv_recv", 2500),
 ]
+
+# the server dies while the client is idle: preparation (queues empty / events queued / response queued /
+# request queued / events and a request queued), when the dead server is reaped, what the client calls next
+SIDLE_PRE = ["-", "Q", "E", "S", "HN", "EHN"]
+SIDLE_REAP = ["0", "1", "2", "3", "4", "n"]
+SIDLE_CALLS = ["D", "ID", "SD", "QD", "VD", "WD", "RD"]
+# qb_ipcc_shm_disconnect probes kill(server_pid, 0) four times, 10 ms apart: a server reaped before the
+# fourth probe is "gone" for the client (the documented hypothesis of the clause about the files)
+REAPED_IN_TIME = ("0", "1", "2", "3")
+DISCONNECT_MAX_MS = 40
+
+
+def idle_ops():
+    """(direct, others): `direct` = the client's FIRST call after the death is qb_ipcc_disconnect"""
+    direct, others = [], []
+    for t in TRANSPORTS:
+        for pre in SIDLE_PRE:
+            for reap in SIDLE_REAP:
+                for calls in SIDLE_CALLS:
+                    c = ("i-%s-%s-%s-%s" % (t, pre, reap, calls), ["sidle %s %s %s %s" % (t, pre, reap, calls)])
+                    (direct if calls == "D" else others).append(c)
+    return direct, others
 
 
 def dry_ops():
@@ -203,10 +234,57 @@ def server_death_oracle(ops, lines):
     return None
 
 
+def server_idle_oracle(ops, lines):
+    """The server died while the client was idle.  Calls before qb_ipcc_disconnect: never stuck, a finite
+    timeout kept, wait-for-ever calls back within QB_IPC_MAX_WAIT_MS, result = a disconnect error or
+    something that had been queued; qb_ipcc_is_connected false.  qb_ipcc_disconnect -- whether or not an
+    earlier call noticed the death -- returns within its four 10 ms probes, leaks no descriptor and no
+    mapping, and leaves no file of that connection in /dev/shm (the directory is allowed) provided the
+    dead server is reaped before the fourth probe (socket transport: in every case)."""
+    text = "\n".join(lines)
+    for bad in ("ERROR", "SAN:", "CRASH", "bad-op", "TIMEOUT"):
+        if bad in text:
+            return "harness reports %s: %s" % (bad, [l for l in lines if bad in l][:1])
+    w = ops[0].split()
+    t, reap = w[1], w[3]
+    calls = parse_calls(lines)
+    if not calls or calls[-1]["api"] != "disconnect":
+        return "disconnect not reached"
+    for c in calls[:-1]:
+        if c["blocked"]:
+            return "%s(%s) never returns after the server died" % (c["api"], c["tmo"])
+        if c["api"] == "is_connected":
+            if c["rc"] != "0":
+                return "qb_ipcc_is_connected still true after the server died"
+            continue
+        bound = QB_IPC_MAX_WAIT_MS if (c["tmo"] or 0) < 0 else (c["tmo"] or 0)
+        if c["ms"] > bound + SLACK:
+            return "%s(%s) returned after %d ms" % (c["api"], c["tmo"], c["ms"])
+        if c["rc"] != "DISC" and not (c["rc"] or "").isdigit():
+            return "%s(%s) returned %s, not a disconnect error" % (c["api"], c["tmo"], c["rc"])
+    d = calls[-1]
+    if d["blocked"]:
+        return "qb_ipcc_disconnect never returns"
+    if d["ms"] > DISCONNECT_MAX_MS:
+        return "qb_ipcc_disconnect took %d ms" % d["ms"]
+    res = [l for l in lines if l.startswith("residue ")]
+    if not res:
+        return "residue line missing"
+    kv = dict(x.split("=") for x in res[0].split()[1:])
+    if kv.get("fds") != "0" or kv.get("maps") != "0":
+        return "client leaks after qb_ipcc_disconnect: " + res[0]
+    if (t == "sock" or reap in REAPED_IN_TIME) and kv.get("files") != "0":
+        return ("shared-memory files of the dead server left after qb_ipcc_disconnect (server died while the "
+                "client was idle, calls after the death: %s, reaped: %s): %s" % (w[4], reap, res[0]))
+    return None
+
+
 def oracle(ops, lines):
     if not ops:
         return None
     op = ops[0].split()[0]
+    if op == "sidle":
+        return server_idle_oracle(ops, lines)
     if op in ("sdry", "sdeath"):
         return server_death_oracle(ops, lines)
     return client_death_oracle(ops, lines)
@@ -246,4 +324,17 @@ def tags(ops, lines):
             if c[0]["ms"] > 0:
                 t.append("waited")
         t.append("server-dies:" + ("before" if w[5] == "0" else "during"))
+        if len(w) > 6 and w[6] == "D":
+            noticed = any(l.startswith("call ") and l.endswith("conn=0") for l in lines)
+            t.append("disconnect-is-next-call:" + ("death-noticed-before" if noticed else "death-not-noticed-before"))
+    if w[0] == "sidle":
+        t.append("idle-death:reap=" + w[3])
+        t.append("idle-death:first-call-after=" + w[4][0])
+        q = [l for l in lines if l.startswith("queues ")]
+        t.append("idle-death:queues=" + ("empty" if w[2] in ("-", "Q") else "non-empty"))
+        noticed = any(l.startswith("call ") and l.endswith("conn=0") for l in lines)
+        t.append("idle-death:disconnect-" + ("after-death-noticed" if noticed else "is-first-to-notice"))
+        res = [l for l in lines if l.startswith("residue ")]
+        if res and "files=0" not in res[0]:
+            t.append("idle-death:files-left-because-server-not-reaped-in-time")
     return t
